@@ -69,7 +69,7 @@ theorem c07_writer_keeps_exactly_nonexcluded_fields (excluded : Bytes → Bool)
 error before the value is looked at, whatever follows in the document -/
 theorem c07_reader_rejects_excluded_key (c : TCfg) (scope : List Seg) (mode : MapMode)
     (acc : List (Bytes × Value)) (seen : List Bytes) (k : Bytes) (v : Json.JVal)
-    (rest : List (Bytes × Json.JVal)) (hv : v ≠ .null)
+    (rest : List (Bytes × Json.JVal)) (hv : v ≠ .null) (hkey : c.sem.key k = some k)
     (hx : c.tracker.check (scope ++ [.key k]) = .yes) :
     treeReadEntries c scope mode acc seen ((k, v) :: rest) = .err (.excluded (scopeString (scope ++ [.key k]))) := by
   cases v <;> simp_all [treeReadEntries]
